@@ -211,3 +211,9 @@ def check(run, prog, tier):
         reg_bad = {w for w in ws if "(" not in w and w not in allowed[field]}
         run.ob("C14-c", "writers:" + field, okw and not reg_bad, "%s written by %s%s" % (field, sorted(ws), ("; irregular writes: %s" % odd) if odd else ""), comm.funcs["add_message"].file, None, None,
                what="%s is written outside the ring protocol: %s" % (field, odd or sorted(reg_bad)))
+
+    # ---- C14-e formatted output is queued whole: snprintf-style truncation tests on the output path
+    import rules.fitrule as fitrule
+    run.rule("C14-e", "output path (src/comm.c): where text is formatted with snprintf()/vsnprintf() into a fixed buffer and the result is compared with the buffer size, the side treated as 'the buffer holds the whole text' contains only results <= size - 1 (the functions return the untruncated length; size - 1 characters fit). The rule is exercised program-wide (every such comparison in the driver is decided, see C01-q); on this path there may be none", 0)
+    fitrule.check(run, prog, "C14-e", lambda f: f.file.endswith("src/comm.c"), 0, 5,
+                  "a message of exactly the buffer size loses its last byte although the connection is healthy")
